@@ -22,7 +22,8 @@ EXTENDS Naturals, Sequences, FiniteSets, TLC
 CONSTANTS NP, Full      \* Full: enumerate outcome classes / file names / environment histories (for generation)
 
 Modes    == {"default", "workdir", "keep"}
-Outcomes == {"pass", "fail", "timeout", "skip"}
+\* "timeout_term": the timed-out shell ignores SIGTERM; "timeout_closed": the command closed its output streams and runs on
+Outcomes == {"pass", "fail", "timeout", "skip", "timeout_term", "timeout_closed"}
 
 \* a scenario: per process its mode and the outcome classes of its documents (same file name or not)
 VARIABLES sc, fs, pc, d, owned, wd
